@@ -16,7 +16,7 @@
    What is assumed of the number re-rendering is the per-document boolean [leaves_ok rf d].
    The harness evaluates both on every case (Check.v: [mids_ok], [rf_ok_doc rf_go]). *)
 From Coq Require Import List ZArith Bool String Ascii.
-From GZ Require Import C08.Model C08.Spec C17.Model C17.Hyps C17.Proofs C17.ProofsB C17.ProofsC.
+From GZ Require Import C08.Model C08.Spec C17.Model C17.Hyps C17.Proofs C17.ProofsB C17.ProofsC C17.ProofsD.
 Import ListNotations.
 Open Scope Z_scope.
 Open Scope string_scope.
@@ -53,6 +53,15 @@ Theorem case_insensitive_keys : forall T f d d',
   load_text parse T f (render f d) = load_text parse T f (render f d').
 Proof. exact (case_insensitive_lemma parse render rf parse_render). Qed.
 
+(* The same, with the re-casing described BY THE TYPE (repaired buildFieldsInfo): for every struct
+   type whose fields have distinct canonical keys at every level, re-casing any key that addresses
+   a struct field — at any depth, through pointers, slices, maps and maps of maps — leaves the
+   result unchanged, in every format; map keys must be identical ([tr_val]: they are data). *)
+Theorem case_insensitive_keys_typed : forall T f d d',
+  rep_top d = true -> rep_top d' = true -> keys_distinct T = true -> tr_top T d d' = true ->
+  load_text parse T f (render f d) = load_text parse T f (render f d').
+Proof. exact (case_insensitive_typed_lemma parse render rf parse_render). Qed.
+
 (* conf.Load without conf.UseEnv() never looks at the environment ... *)
 Theorem env_only_when_requested : forall T f env d,
   load_file_text parse expand_text T f false env (render f d) = load_text parse T f (render f d).
@@ -76,6 +85,26 @@ End Oracles.
 
 Print Assumptions format_independent.
 Print Assumptions case_insensitive_keys.
+Print Assumptions case_insensitive_keys_typed.
+
+(* map keys are data: lower-casing a map-typed position keeps every key as written *)
+Theorem map_keys_left_alone : forall e fi m, info_any (TMap e) = Some fi -> dkeys (lc_dmap m fi) = dkeys m.
+Proof. exact map_keys_kept. Qed.
+Print Assumptions map_keys_left_alone.
+
+(* what buildStructFieldsInfo builds for a struct with distinct canonical keys: one child per field
+   (embedded structs flattened), keyed by the canonical key, holding the info of the field's type *)
+Theorem field_info_characterised : forall fs,
+  nodupb (lowerkeys fs) = true ->
+  info_fields fs fi_empty = option_map (fun es => FI es None) (entries fs) /\
+  forall es lk, entries fs = Some es ->
+    lookup lk es = match ftype_of lk fs with Some t => info_any t | None => None end.
+Proof.
+  intros fs H. split.
+  - exact (info_fields_entries fs fi_empty H (fun k _ => eq_refl)).
+  - intros es lk He. rewrite (lookup_entries fs es lk He). destruct (ftype_of lk fs); auto using info_named_any.
+Qed.
+Print Assumptions field_info_characterised.
 Print Assumptions env_only_when_requested.
 Print Assumptions env_expanded_when_requested.
 Print Assumptions env_format_independent.
@@ -216,6 +245,9 @@ Example ex_recase :
   match info_fields ex_T fi_empty with Some i => recase_doc ex_d ex_d' i = true | None => True end /\
   rep_top ex_d' = true /\ load_doc rf_go ex_T FJson ex_d' = load_doc rf_go ex_T FJson ex_d.
 Proof. vm_compute. repeat split. Qed.
+
+Example ex_recase_typed : keys_distinct ex_T = true /\ tr_top ex_T ex_d ex_d' = true.
+Proof. vm_compute. split; reflexivity. Qed.
 
 Example ex_env :
   expand_doc [("HOST", "db1")] (DMap (DMcons "dsn" (DStr "tcp://${HOST}:$PORT/x") DMnil))
